@@ -16,7 +16,7 @@ import z3
 from pyvc import ops
 from pyvc.values import Ext, NoOp, PyRaise, Unsupported, VBound, VClass, VDict, VList, VObj, VSet, stub
 
-from .api_common import CollectionsStub, ModuleStub
+from .api_common import CollectionsStub, ModuleStub, itertools_module
 
 MODEL = "pymoca.backends.casadi.model"
 ATTRS = ("value", "min", "max", "start", "fixed", "nominal")
@@ -125,7 +125,7 @@ def install(eng):
                                 "substitute": stub(lambda eng, e, a, b: e)})
     typing = ModuleStub("typing", {})
     eng.ext_modules.update({"casadi": cas, "numpy": numpy, "re": ReStub(), "logging": ModuleStub("logging", {"getLogger": stub(lambda eng, *a: NoOp())}),
-                            "itertools": ModuleStub("itertools", {}), "sys": ModuleStub("sys", {"maxsize": 2 ** 63 - 1}),
+                            "itertools": itertools_module(), "sys": ModuleStub("sys", {"maxsize": 2 ** 63 - 1}),
                             "collections": CollectionsStub(), "typing": typing})
     eng.call_contracts.clear()
     eng.loop_specs.clear()
